@@ -150,6 +150,8 @@ pub struct Rt {
     pub nontrivial: BTreeSet<u64>,
     pub samples: Vec<String>,
     pub only: Option<u32>,
+    /// stop after this many types (interpreter-sized runs)
+    pub limit: u64,
     rng: u64,
 }
 
@@ -202,6 +204,7 @@ impl Rt {
             nontrivial: BTreeSet::new(),
             samples: vec![],
             only,
+            limit: u64::MAX,
             rng: seed ^ 0x9E37_79B9_7F4A_7C15 ^ (part << 32),
         }
     }
@@ -272,6 +275,9 @@ impl Rt {
             if o != m.id {
                 return;
             }
+        }
+        if self.types >= self.limit {
+            return;
         }
         self.types += 1;
         self.evaluations += 1;
@@ -476,6 +482,7 @@ pub fn main_with(parts: &[fn(&mut Rt)]) {
     let mut part = 0u64;
     let mut out = None;
     let mut only = None;
+    let mut limit = u64::MAX;
     let mut i = 1;
     while i < args.len() {
         match args[i].as_str() {
@@ -495,12 +502,17 @@ pub fn main_with(parts: &[fn(&mut Rt)]) {
                 only = args[i + 1].parse().ok();
                 i += 1;
             }
+            "--limit" => {
+                limit = args[i + 1].parse().unwrap_or(u64::MAX);
+                i += 1;
+            }
             _ => {}
         }
         i += 1;
     }
     let t0 = std::time::Instant::now();
     let mut rt = Rt::new(seed, part, only);
+    rt.limit = limit;
     for p in parts {
         p(&mut rt);
     }
